@@ -272,7 +272,8 @@ def query_regions(q, forms=None) -> set:
         out.add("disjunction_over_different_variables")
     if mixed_conj_in_disj:
         out.add("disjunction_of_multi_variable_conjunction")
-    if _rule_kinds(q.get("rule") or {}) & {"alternative", "next"}:
+    if _rule_kinds(q.get("rule") or {}) & {"alternative", "next"} or _rule_max_children(q.get("rule") or {}) > 1:
+        # alternative()/next_rule() branches, or a node with two or more branches of any kind
         out.add("rule_tree_with_alternative_or_next")
     if forms:
         used = set(q.get("sel", [])) | _vars_in(q.get("conds", [])) | _vars_in(q.get("head", [])) | \
@@ -294,6 +295,13 @@ def _ctor_args(q):
             walk(ch["node"])
     walk(q.get("rule") or {})
     return out
+
+
+def _rule_max_children(node):
+    m = len(node.get("children", []))
+    for ch in node.get("children", []):
+        m = max(m, _rule_max_children(ch["node"]))
+    return m
 
 
 def _rule_kinds(node):
